@@ -1471,6 +1471,9 @@ func lettersS() []letter {
 		// a complete block whose list is malformed (upper-case name): with ReadMetaHeaders a stream error, and the
 		// blocks after it must still be decoded and handed out
 		{"HEADERS(5,+EH,upper-case name)", h2wire.Headers(5, []byte{0x00, 0x01, 'A', 0x01, 'b'}, false, true, nil, -1)},
+		// a legal block that opens with a dynamic table size update (RFC 7541 section 4.2: only legal at the START of
+		// a block - a reader that did not finish the block before it in its HPACK decoder refuses this one)
+		{"HEADERS(7,+EH,size update first)", h2wire.Headers(7, append([]byte{0x20}, lit...), false, true, nil, -1)},
 	}
 	return ls
 }
@@ -1610,6 +1613,9 @@ func partH(c *ctx, thorough bool) {
 			} else {
 				in = append(h2wire.Headers(1, b[:cut], true, false, nil, -1), h2wire.Continuation(1, b[cut:], true)...)
 			}
+			// a second block, opening with a table size update: whatever the first block was (accepted, or refused
+			// with a stream error for a malformed list), the decoder must be at the start of a block again
+			in = append(in, h2wire.Headers(3, []byte{0x20, 0x82}, true, true, nil, -1)...)
 			in = append(in, h2wire.Ping(false, [8]byte{})...)
 			c.reader("H", in, []uint32{16384}, meta, fmt.Sprintf("n=%d|cut=%d|b0=%x", len(b), cut, first(b)))
 		}
